@@ -50,8 +50,8 @@ Definition g_shape_abs (t : list Z) : bool :=
   mant_ok m && match e with None => true | Some x => exp_ok x end.
 Definition g_shape (t : list Z) : bool :=
   match t with
-  | 45 :: r => g_shape_abs r
-  | _ => g_shape_abs t
+  | c :: r => if c =? 45 then g_shape_abs r else g_shape_abs t
+  | [] => false
   end.
 
 (* finite float64: exponent field not all ones *)
@@ -81,9 +81,10 @@ Definition is_float_literal (t : list Z) : bool :=
   let (ip, r1) := span_digits (strip_sign t) in
   int_part_ok ip &&
   match r1 with
-  | 46 :: r2 => let (fp, r3) := span_digits r2 in
-                nonempty fp && match r3 with [] => true | _ => is_exponent r3 end
-  | _ => false
+  | c :: r2 => (c =? 46) &&
+               (let (fp, r3) := span_digits r2 in
+                nonempty fp && match r3 with [] => true | _ => is_exponent r3 end)
+  | [] => false
   end.
 
 (* ---------- scanner.go: escape_, rune_, string_ ---------- *)
@@ -93,23 +94,37 @@ Definition is_float_literal (t : list Z) : bool :=
 Definition simple_esc (c : Z) : bool := zmem c [97; 98; 102; 110; 114; 116; 118; 39; 34; 92].
 Definition esc_len (t : list Z) : option nat :=
   match t with
-  | 120 :: a :: b :: _ => if hexd a && hexd b then Some 3%nat else None
-  | 117 :: a :: b :: c :: d :: _ => if hexd a && hexd b && hexd c && hexd d then Some 5%nat else None
-  | 85 :: a :: b :: c :: d :: e :: f :: g :: h :: _ =>
-      if hexd a && hexd b && hexd c && hexd d && hexd e && hexd f && hexd g && hexd h then Some 9%nat else None
-  | c :: _ => if simple_esc c then Some 1%nat else None
   | [] => None
+  | c :: r =>
+    if c =? 120 then
+      match r with
+      | a :: b :: _ => if hexd a && hexd b then Some 3%nat else None
+      | _ => None
+      end
+    else if c =? 117 then
+      match r with
+      | a :: b :: c :: d :: _ => if hexd a && hexd b && hexd c && hexd d then Some 5%nat else None
+      | _ => None
+      end
+    else if c =? 85 then
+      match r with
+      | a :: b :: c :: d :: e :: f :: g :: h :: _ =>
+          if hexd a && hexd b && hexd c && hexd d && hexd e && hexd f && hexd g && hexd h then Some 9%nat else None
+      | _ => None
+      end
+    else if simple_esc c then Some 1%nat else None
   end.
 (* rune_ = an apostrophe, then escape_ or one character other than apostrophe and EOL, then an apostrophe *)
 Definition is_rune_literal (t : list Z) : bool :=
   match t with
-  | 39 :: r =>
-      (match r with
-       | 92 :: e => match esc_len e with Some n => list_eqb Z.eqb (skipn n e) [39] | None => false end
-       | _ => false
-       end)
-      || (match r with [c; 39] => negb (c =? 39) && negb (c =? 10) | _ => false end)
-  | _ => false
+  | q :: r =>
+      (q =? 39) &&
+      ((match r with
+        | c :: e => (c =? 92) && match esc_len e with Some n => list_eqb Z.eqb (skipn n e) [39] | None => false end
+        | [] => false
+        end)
+       || (match r with [c; q2] => (q2 =? 39) && negb (c =? 39) && negb (c =? 10) | _ => false end))
+  | [] => false
   end.
 (* string_ = a double quote, any number of escape_ or characters other than double quote and EOL,
    a double quote: the text after the opening quote is a sequence of escapes and plain
@@ -129,8 +144,8 @@ Fixpoint str_body (fuel : nat) (t : list Z) : bool :=
   end.
 Definition is_string_literal (t : list Z) : bool :=
   match t with
-  | 34 :: r => str_body (length r) r
-  | _ => false
+  | q :: r => (q =? 34) && str_body (length r) r
+  | [] => false
   end.
 
 (* ---------- tokens ---------- *)
